@@ -449,6 +449,10 @@ impl Checker {
         total *= flag_sets.len() * df_sets.len() * mem_patterns.len() * if xmm_srcs.is_empty() { 1 } else { xmm_vals.len() };
         let cap = if thorough { 3000 } else { 400 };
         let stride = (total / cap).max(1);
+        if stride > 1 {
+            acc.count("encodings_with_strided_state_grid", 1);
+            acc.cap(format!("C01: the state cross product of an encoding is walked with a fixed stride when it exceeds {} states (every encoding is still executed; see counter encodings_with_strided_state_grid)", cap));
+        }
         let mut idx = 0usize;
         let mut violations_here = 0;
         // iterate the cross product by index
